@@ -93,6 +93,25 @@ fn learn<C: VCtx>(ctx: &C, script: &[u8], k: usize) -> Vec<C::X> {
 
 pub fn run<C: VCtx>(ctx: &C, op: &str, a: &[Value]) -> Value {
     let zkp = Zkp::new(ctx);
+    // "seq": a list of [op, args] pairs executed one after the other on ONE Zkp value (state carried by an instance
+    // must not change any answer); returns the list of results
+    if op == "seq" {
+        let steps = a[0].as_array().expect("seq: list of steps");
+        return Value::Array(
+            steps
+                .iter()
+                .map(|st| {
+                    let name = st[0].as_str().expect("seq: op name");
+                    let args = st[1].as_array().expect("seq: args");
+                    run_with(ctx, &zkp, name, args)
+                })
+                .collect(),
+        );
+    }
+    run_with(ctx, &zkp, op, a)
+}
+
+pub fn run_with<C: VCtx>(ctx: &C, zkp: &Zkp<C>, op: &str, a: &[Value]) -> Value {
     match op {
         // ---------- constants and arithmetic ----------
         "gen" => C::e_out(ctx.generator()),
